@@ -160,6 +160,21 @@ func (s *c6Sink) write(l zerolog.Level, hasLevel bool, p []byte) (int, error) {
 	return len(p), nil
 }
 
+// Close makes the sinks io.Closers: under SyncWriter a Close may not overlap a Write.
+func (s *c6Sink) Close() error {
+	if zsim.Dying() {
+		return nil
+	}
+	zsim.Probe("sink_closed")
+	if s.inFlight > 0 && s.r.synced {
+		zsim.Fail("C06.sync_overlap", "Close reached a writer wrapped in SyncWriter (sink %d) while a Write was still in flight", s.idx)
+	}
+	s.inFlight++
+	zsim.Yield("sink.Close")
+	s.inFlight--
+	return nil
+}
+
 func firstDiff(a, b []byte) int {
 	n := len(a)
 	if len(b) < n {
@@ -303,10 +318,10 @@ func (r *c6Run) runChain(c *c6Chain, seq int) {
 
 func (c06World) Run(prop string, ch *zsim.Choices, trace bool) *RunResult {
 	r := &c6Run{ch: ch, cur: map[int]*c6Chain{}, lastSeq: map[[2]int]int{}}
-	oldTS, oldEH := zerolog.TimestampFunc, zerolog.ErrorHandler
+	oldTS, oldEH, oldSM := zerolog.TimestampFunc, zerolog.ErrorHandler, zerolog.ErrorStackMarshaler
 	oldG := zlog.Logger
 	defer func() {
-		zerolog.TimestampFunc, zerolog.ErrorHandler = oldTS, oldEH
+		zerolog.TimestampFunc, zerolog.ErrorHandler, zerolog.ErrorStackMarshaler = oldTS, oldEH, oldSM
 		zlog.Logger = oldG
 		zerolog.SetGlobalLevel(zerolog.TraceLevel)
 		zerolog.DisableSampling(false)
@@ -318,6 +333,7 @@ func (c06World) Run(prop string, ch *zsim.Choices, trace bool) *RunResult {
 		zerolog.DisableSampling(false)
 		zerolog.TimestampFunc = func() time.Time { return refTime }
 		zerolog.ErrorHandler = func(err error) { r.errCalls++ }
+		zerolog.ErrorStackMarshaler = func(err error) interface{} { return "STACK" }
 		r.sinks[0] = &c6Sink{r: r, idx: 0}
 		r.sinks[1] = &c6Sink{r: r, idx: 1}
 		r.dest = ch.Weighted(4, 3, 2, 2, 1, 1, 1, 2, 2, 1, 1)
@@ -481,6 +497,16 @@ func (c06World) Run(prop string, ch *zsim.Choices, trace bool) *RunResult {
 					seq++
 					r.runChain(cs[i], seq)
 				}
+			}))
+		}
+		if cl, ok := r.curDest.(io.Closer); ok && r.synced && ch.Chance(1, 3) {
+			// somebody closes the synchronized writer while others are logging (a shutdown
+			// path, Fatal); the destination keeps accepting writes afterwards
+			tasks = append(tasks, zsim.Spawn("closer", func() {
+				for j := ch.Intn(40); j > 0; j-- {
+					zsim.Yield("closer")
+				}
+				cl.Close()
 			}))
 		}
 		if r.flips {
